@@ -218,6 +218,7 @@ func TestVerifDifferential(t *testing.T) {
 	var tasks []func()
 	tasks = append(tasks, zBoundaryTasks()...)
 	tasks = append(tasks, craftedT0Tasks()...)
+	tasks = append(tasks, longSecretTasks()...)
 	for i := 0; i < len(impls)*nk; i++ {
 		i := i
 		tasks = append(tasks, func() { oneKey(impls[len(impls)-1-i%len(impls)], i/len(impls), nm) })
@@ -227,9 +228,49 @@ func TestVerifDifferential(t *testing.T) {
 }
 
 func oneKey(im *impl, k, nm int) {
+	oneKeySeed(im, k, nm, genSeed(lib.NewRng("c04/key/"+im.p.Name, k), k))
+}
+
+// longSecretTasks: key generation seeds for which ExpandS needs a third
+// SHAKE256 block for one of the secret polynomials (eta = 4 only: ML-DSA-65,
+// Dilithium3; about one seed in 14 000) are found by scanning a fixed range of
+// seeds with the reference sampler; the full differential case (keys,
+// signatures, verdicts) is then run on them.
+func longSecretTasks() (out []func()) {
+	lib.Mandatory("keygen:secret-sampler-needs-third-block")
+	for _, im := range impls {
+		if im.p.Eta != 4 {
+			continue
+		}
+		im := im
+		out = append(out, func() {
+			const workers, span = 8, 20000
+			hits := make([][][]byte, workers)
+			lib.Par(workers, func(w int) {
+				for i := w * span; i < (w+1)*span; i++ {
+					xi := mldsa.H(32, []byte(fmt.Sprintf("c04/long-secret/%d/%s/%d", lib.Seed(), im.p.Name, i)))
+					if im.p.SecretSamplerBlocks(xi) >= 3 {
+						hits[w] = append(hits[w], xi)
+					}
+				}
+			})
+			n := 0
+			for _, hs := range hits {
+				for _, xi := range hs {
+					if n < lib.Scale(2, 6) {
+						lib.Count("keygen:secret-sampler-needs-third-block")
+						oneKeySeed(im, 900+n, 2, xi)
+						n++
+					}
+				}
+			}
+		})
+	}
+	return
+}
+
+func oneKeySeed(im *impl, k, nm int, seed []byte) {
 	p := im.p
-	kr := lib.NewRng("c04/key/"+p.Name, k)
-	seed := genSeed(kr, k)
 	pkb, skb := p.KeyGen(seed)
 
 	var pkObj, skObj any
